@@ -353,9 +353,10 @@ Fixpoint walk_blocks (fuel : nat) (algo : Z) (ix : list (Z * Z)) (cs : cstate) (
     end
   end.
 
-(* enough for every walk of one pass: each visit is a distinct allocation object, and a pass at
-   most doubles their number *)
-Definition walk_fuel (st : dstate) : nat := 2 * length (d_table st) + 2.
+(* enough for every walk of one pass (DefragProofs.collect_never_panics): each visit of a block's
+   walk is a distinct allocation object of that block, a pass at most doubles the number of
+   allocation objects, and a visited user allocation adds at most one temporary below it *)
+Definition walk_fuel (st : dstate) : nat := 4 * length (d_table st) + 4.
 
 (* Go: BlockListCollectMoves.  The handler selector: 0 = realloc (single block), 1 fast, 2 full *)
 Definition collect_moves (st : dstate) (c : dctx) (p : pass) : cstate * wres :=
